@@ -892,6 +892,18 @@ class Program:
                 c.keywords = [ast.keyword(arg=nm, value=v) for nm, v in new_kw]
                 ast.fix_missing_locations(c)
 
+    def super_bases(self, fi) -> List["ClassInfo"]:
+        """the classes `super()` inside fi searches, in order: the MRO of fi's class after the class the code was WRITTEN in (a
+        pushed-down copy of a pulled-up method keeps the `super()` of the base it came from)"""
+        c = self.enclosing_class(fi)
+        if c is None:
+            return []
+        mro = self.mro(c)
+        origin = getattr(fi, "super_origin", None)
+        if origin is not None and origin in mro:
+            return mro[mro.index(origin) + 1:]
+        return mro[1:]
+
     def _push_down_pulled_up(self) -> None:
         """pull-up refactorings: a method the pinned tree defined in class C that C now inherits from a base-class method which did
         not exist there (the identical bodies of several subclasses merged into a template method on the base, usually with hooks
@@ -913,13 +925,13 @@ class Program:
                         break
                 if base_m is None or base_m.qualname in known or self.is_stub(base_m):
                     continue
-                # constructors and anything that says `super()` are left where they are: inside a copy on C, `super()` would start
-                # at C instead of at the base the code was written for
-                if name.startswith("__") or any(isinstance(x, ast.Name) and x.id == "super" for x in ast.walk(base_m.node)):
+                # dunder methods other than the constructor stay where they are
+                if name.startswith("__") and name != "__init__":
                     continue
                 node = _copy.deepcopy(base_m.node)
                 fi = FuncInfo(name, base_m.module, node, cls=ci, parent=None, decorators=self._decorators(node))
                 fi.pushed_down_from = base_m.qualname
+                fi.super_origin = base_m.cls      # `super()` in the copy still means "after the class this was written in"
                 ci.methods[name] = fi
                 self.functions[fi.qualname] = fi
                 self._by_node[id(node)] = fi
@@ -1407,12 +1419,10 @@ class Program:
 
         # super().m(...)
         if isinstance(f, ast.Attribute) and isinstance(f.value, ast.Call) and isinstance(f.value.func, ast.Name) and f.value.func.id == "super":
-            c = self.enclosing_class(fi)
-            if c is not None:
-                for b in self.mro(c)[1:]:
-                    if f.attr in b.methods:
-                        add(b.methods[f.attr])
-                        break
+            for b in self.super_bases(fi):
+                if f.attr in b.methods:
+                    add(b.methods[f.attr])
+                    break
             return out
         static = self._resolve_callable_static(fi, f)
         if isinstance(static, ClassInfo):
